@@ -187,7 +187,13 @@ def corr_run(ctx, name, vh_args, component_desc, nontrivial=lambda c: True, spec
     cmd = [VH] + vh_args + ["--seed", str(ctx.seed), "--tier", ctx.tier, "--out", out]
     rc, o = sh(cmd, timeout=6000, env=GOENV)
     if rc != 0:
-        raise RuntimeError("harness %s failed rc=%s:\n%s" % (name, rc, o[-3000:]))
+        # the harness links the implementation: a fatal error there (out of memory, runtime throw, deadlock,
+        # timeout) kills the harness process.  That is an observation about the implementation, not a check error.
+        ctx.violation(name + "_died", {"kind": "the harness process running the implementation died (fatal error, not a recoverable panic) or timed out",
+                                      "broken": "correspondence %s (%s) could not be completed" % (name, component_desc),
+                                      "run": name, "vh_args": vh_args, "rc": rc, "output_tail": o[-3000:]}, found_input=False)
+        ctx.notes.append("%s: harness died rc=%s" % (name, rc))
+        return {"cases": 0, "mismatches": [], "specbad": []}
     lines = [l for l in open(os.path.join(out, "cases.txt")).read().split("\n") if l.strip()]
     cases = json.load(open(os.path.join(out, "cases.json")))
     if len(cases) != len(lines):
